@@ -1,6 +1,6 @@
 """C07 - a process sees exactly its declared variables, always from the current
 hierarchy (also after structural updates)."""
-from vivarium.core.process import Process
+from vivarium.core.process import Process, Step
 
 from vsym.core import AND, OR, NOT, EQ, is_sym, PathControl
 from vsym.resolve import resolve, get
@@ -18,10 +18,12 @@ CLAIMS = {
                   'is wired to (own resolver, own traversal)',
 }
 GOALS = {'quick': ['view after add', 'view after delete', 'view after divide',
-                   'view after move', 'observer below the root'],
+                   'view after move', 'observer below the root',
+                   'step observer after a step issued a structural update'],
          'thorough': ['view after add', 'view after delete',
                       'view after divide', 'view after move',
-                      'observer below the root']}
+                      'observer below the root',
+                      'step observer after a step issued a structural update']}
 STUBS = ['observer process: glob port declaring only s.x of each agent, a dict '
          'port on a store that holds an extra undeclared variable, a scalar '
          'port, an output-only port; it compares its states with the harness\'s '
@@ -57,6 +59,11 @@ class Observer(Process):
         return {'out': {'o': 1}, 'g': {'total': CTX['dtot']}}
 
     def check(self, st, where):
+        _check(st, where)
+
+
+def _check(st, where):
+    if True:
         e = CTX.get('engine')
         if e is None or CTX.get('stop_checks'):
             return
@@ -107,6 +114,20 @@ class Observer(Process):
                 ctx.goal('view after move')
 
 
+class ObserverStep(Step):
+    """The same observer as a flow step that depends on the step issuing the
+    structural updates: it runs in a later layer of the same step phase."""
+
+    ports_schema = Observer.ports_schema
+
+    def next_update(self, timestep, states):
+        _check(states, 'step.next_update')
+        ctx = CTX.get('ctx')
+        if CTX.get('engine') is not None and CTX.get('issued') and ctx:
+            ctx.goal('step observer after a step issued a structural update')
+        return {'out': {'o': 1}, 'g': {'total': CTX['dtot']}}
+
+
 class Tot(Process):
     """declares an extra variable next to the one the observer declares"""
 
@@ -137,6 +158,20 @@ def jobs(tier):
                 out.append(dict(name='%s-%s-any' % (flavor, KINDS[a]),
                                 flavor=flavor, ops=[a, None], budget_s=1200,
                                 crosscheck=10))
+    # the structural update comes from a flow step; the observer is a step
+    # in a later layer of the same phase
+    for flavor in ('none', 'flow'):
+        for k in range(len(KINDS)):
+            if flavor == 'flow' and q and KINDS[k] not in (
+                    'add', 'delete', 'divide', 'move_out'):
+                continue
+            out.append(dict(name='stepobs-%s-%s' % (flavor, KINDS[k]),
+                            flavor=flavor, ops=[k], stepobs=True,
+                            budget_s=100 if q else 900))
+        for a, b in [(0, 1), (2, 3), (5, 6)]:
+            out.append(dict(name='stepobs-%s-%s-%s' % (
+                flavor, KINDS[a], KINDS[b]), flavor=flavor, ops=[a, b],
+                stepobs=True, budget_s=100 if q else 900))
     if not q:
         for a in (2, 3, 5):
             out.append(dict(name='none-%s-any-any' % KINDS[a], flavor='none',
@@ -150,7 +185,8 @@ def body(ctx, cfg):
     d = ctx.int('d', -3, 3)
     kinds = [k if k is not None else ctx.choice('op', len(KINDS))
              for k in cfg['ops']]
-    below = ctx.flag('below')
+    stepobs = bool(cfg.get('stepobs'))
+    below = False if stepobs else ctx.flag('below')
     home = ('h',) if below else ()
     up = ('..',) if below else ()
     if below:
@@ -161,7 +197,12 @@ def body(ctx, cfg):
     tot = Tot({'ts': ctx.int('tst', 1, 2)})
     extra_p = {'tot': tot}
     extra_t = {'tot': {'g': ('g',), 'one': ('one',)}}
-    if below:
+    extra_s = extra_f = None
+    if stepobs:
+        extra_s = {'obs': ObserverStep()}
+        extra_f = {'obs': [('actor',)]}
+        extra_t['obs'] = wiring
+    elif below:
         extra_p['h'] = {'obs': obs}
         extra_t['h'] = {'obs': wiring}
     else:
@@ -174,7 +215,8 @@ def body(ctx, cfg):
     orig_clear = hist.CTX.clear
     e = None
     try:
-        e = _build(ctx, kinds, cfg, ts_a, ts_g, d, extra_p, extra_t, pre)
+        e = _build(ctx, kinds, cfg, ts_a, ts_g, d, extra_p, extra_t, pre,
+                   extra_s, extra_f)
         e.update(2 * len(kinds) + 2)
     except PathControl:
         raise
@@ -184,11 +226,13 @@ def body(ctx, cfg):
         ctx.cut_foreign(err)
 
 
-def _build(ctx, kinds, cfg, ts_a, ts_g, d, extra_p, extra_t, pre):
+def _build(ctx, kinds, cfg, ts_a, ts_g, d, extra_p, extra_t, pre,
+           extra_s=None, extra_f=None):
     class E(hist.LoggedEngine):
         def __init__(self, *a, **kw):
             CTX.update(pre)
             super().__init__(*a, **kw)
     return hist.build(ctx, kinds, cfg['flavor'], ts_a, ts_g, d,
                       extra_processes=extra_p, extra_topology=extra_t,
-                      engine_cls=E)
+                      engine_cls=E, extra_steps=extra_s, extra_flow=extra_f,
+                      issuer='flowstep' if extra_s else 'process')
